@@ -12,13 +12,46 @@ class C11(PipelineProp):
     def rule(self):
         return (
             "PretextView-model edit scripts (and 20% perturbed ones) over TPF-style inputs with forward and reverse "
-            "contigs, 1-bp contigs, contigs abutting without gap, whole scaffolds re-oriented in the map; cuts / "
+            "contigs, 1-bp contigs, contigs abutting without gap, 25% maps that flip single contigs (1-bp ones included) in place at a 1-bp texel, contig-less (gap-only) input scaffolds, whole scaffolds re-oriented in the map; cuts / "
             "breaks / joins recounted independently from unordered pairs of facing contig ends. non-trivial = "
             "distinct completed case with at least one junction in input or output"
         )
 
+    def gen_flip_in_place(self, rng):
+        """one bait per contig, in input order, some of them reversed in place (texel 1 bp): flips of
+        1-bp contigs are where an encoding that forgets WHICH end of a contig faces the junction goes wrong"""
+        rows = []
+        baits = []
+        pos = 0
+        for k in range(rng.randint(3, 7)):
+            if k and rng.random() < 0.6:
+                g = rng.choice([1, 10, 200])
+                rows.append(["G", g, "scaffold"])
+                pos += g
+            ln = rng.choice([1, 1, 1, 2, 3, 50])
+            rows.append(["F", f"ctg{k + 1}", 1, ln, rng.choice([1, 1, -1]), []])
+            baits.append(["F", "S1", pos + 1, pos + ln, rng.choice([1, -1]), []])
+            pos += ln
+        prows = []
+        for b in baits:
+            if prows:
+                prows.append(list(P.PGAP))
+            prows.append(b)
+        if rng.random() < 0.5:
+            ptx = [{"name": "Scaffold_1", "rows": prows}]
+        else:
+            ptx = [{"name": f"Scaffold_{i + 1}", "rows": [b]} for i, b in enumerate(baits)]
+        return {"gen": "flip-in-place", "input": {"scaffolds": [{"name": "S1", "rows": rows}]},
+                "pretext": {"bpt": "1.000000", "scaffolds": ptx}, "prefix": "SUPER_"}
+
     def gen_case(self, rng):
+        if rng.random() < 0.25:
+            return self.gen_flip_in_place(rng)
         inp = P.gen_input(rng, style=rng.choice(["tpf", "tpf", "fasta"]))
+        if rng.random() < 0.3:
+            # a scaffold without any contig (an all-N record, an AGP object made of gap lines only)
+            inp["scaffolds"].insert(rng.randrange(len(inp["scaffolds"]) + 1),
+                                    {"name": "allN_1", "rows": [["G", rng.choice([10, 500]), "scaffold"]]})
         ptx, _ = P.gen_pretext(rng, inp, rng.choice(["edit", "edit", "edit", "null"]))
         gen = "edit"
         if rng.random() < 0.2:
